@@ -45,6 +45,11 @@ fn self_checks() -> (u64, u64, u64) {
 fn main() {
     let args: Vec<String> = std::env::args().collect();
     monitor::install();
+    monitor::install_logger();
+    // the overflow-checked profile doubles as the "host with trace logging" configuration
+    if cfg!(debug_assertions) {
+        monitor::set_trace_logging(true);
+    }
     match args.get(1).map(|s| s.as_str()) {
         Some("run") if args.len() >= 4 => run(&args),
         Some("replay") if args.len() >= 3 => replay(&args[2]),
@@ -52,6 +57,11 @@ fn main() {
             let tier = parse_tier(&args[3]);
             let p = props::registry().into_iter().find(|p| p.id == args[2]).unwrap_or_else(|| monitor::machinery_fail("unknown property"));
             println!("{}", if (p.both_profiles)(tier) { "yes" } else { "no" });
+        }
+        Some("needs-dbg") if args.len() >= 4 => {
+            let tier = parse_tier(&args[3]);
+            let p = props::registry().into_iter().find(|p| p.id == args[2]).unwrap_or_else(|| monitor::machinery_fail("unknown property"));
+            println!("{}", if p.dbg_lean && tier.thorough() { "yes" } else { "no" });
         }
         Some("selfcheck") => {
             let (n, p7, p6) = self_checks();
@@ -102,7 +112,9 @@ fn run(args: &[String]) -> ! {
         (Some(k), Some(n)) => Some((k, n)),
         _ => None,
     });
-    let ctx = props::Ctx { id: id.clone(), tier, seed, child: child_out.is_some(), shard };
+    let lean = args.iter().any(|a| a == "--lean");
+    let probe = args.iter().any(|a| a == "--probe");
+    let ctx = props::Ctx { id: id.clone(), tier, seed, child: child_out.is_some(), shard, lean, probe };
     let mut rep = Report::new(&id, tier, seed);
     rep.extra.push(("oracle_selfcheck".into(), Json::obj().with("best_of_n_agreement_hands", Json::U(n)).with("p7_covering_pairs", Json::U(p7)).with("p6_covering_pairs", Json::U(p6))));
     (prop.run)(&ctx, &mut rep);
@@ -134,6 +146,23 @@ fn run(args: &[String]) -> ! {
             _ => monitor::machinery_fail("overflow-checked child run failed"),
         }
     }
+    if prop.dbg_lean && tier.thorough() {
+        // third configuration: the crate compiled as `cargo test` compiles it (opt-level 0), lean spaces only
+        let bin = std::env::var("CKC_MC_DBG_BIN").unwrap_or_else(|_| monitor::machinery_fail("CKC_MC_DBG_BIN not set but this tier also runs the unoptimised profile"));
+        let out = std::env::temp_dir().join(format!("ckc-mc-dbg-{}-{}.json", id, std::process::id()));
+        let status = std::process::Command::new(&bin).args(["run", &id, "quick", "--child", out.to_str().unwrap(), "--lean"]).status();
+        match status {
+            Ok(s) if s.success() => {
+                let text = std::fs::read_to_string(&out).unwrap_or_else(|_| monitor::machinery_fail("dbg child report missing"));
+                let _ = std::fs::remove_file(&out);
+                let mut j = Json::parse(&text).unwrap_or_else(|e| monitor::machinery_fail(&format!("dbg child report unreadable: {}", e)));
+                j.set("profile", Json::s("dbg (crate at opt-level 0, lean spaces)"));
+                rep.merge_child(&j);
+            }
+            Ok(s) if s.code() == Some(1) => std::process::exit(1),
+            _ => monitor::machinery_fail("unoptimised child run failed"),
+        }
+    }
     evidence::finish(rep);
 }
 
@@ -150,7 +179,17 @@ fn replay(path: &str) -> ! {
             println!("  trace: {}", t.as_str().unwrap_or(""));
         }
     }
-    let verdict = if case.kind.starts_with("seq|") { props::judge_seq(prop.judge, &case) } else { (prop.judge)(&case) };
+    // both logging configurations: none (Off) and a host that logs at Trace level
+    let run_once = || if case.kind.starts_with("seq|") { props::judge_seq(prop.judge, &case) } else { (prop.judge)(&case) };
+    monitor::set_trace_logging(false);
+    let mut verdict = run_once();
+    if !matches!(verdict, Verdict::Violated { .. }) {
+        monitor::set_trace_logging(true);
+        let v2 = run_once();
+        if let Verdict::Violated { class, expected, observed } = v2 {
+            verdict = Verdict::Violated { class, expected, observed: format!("{} [with a Trace-level logger installed]", observed) };
+        }
+    }
     match verdict {
         Verdict::Holds => {
             println!("HOLDS property={} (the recorded case no longer violates)", id);
